@@ -21,6 +21,10 @@ INFO = {
  "S-C12-2": ("C12", "write_vcf keeps the deletion anchor offset for every later record", "VCF output of a solution with a plain deletion and any variant at a higher position", "caught as written"),
  "S-C16-2": ("C16", "the VCF MNV fold-up deletes all support of a component substitution instead of the folded copies", "a catalogued MNV whose first base change is also catalogued as a substitution of its own, with different zygosity of the two", "missed at first; caught after the richd table got a substitution equal to the MNV's first base change (*17) and C16 moved to that table"),
  "S-C17-2": ("C17", "re-introduces the aliasing of the dumped reference lists (reverts the D14 fix)", "reads with a deletion in a gene region outside the RefSeq mapping, run then replay", "caught as written (evidence-level replay oracle)"),
+ "S-C05-2": ("C05", "CBC.is_binary cached per variable name in a class-level dict shared by all models", "two models in one process that reuse a variable name with a different kind (integer vs binary)", "missed at first (all variable names had one kind); caught after models with a general-integer variable under the usual name were added to C05"),
+ "S-C09-2": ("C09", "Gene.get_functional memoized in a module-level dict keyed by (gene name, position, op) without the database identity", "two same-named databases in one process that label a shared variant differently", "missed at first (the variant menu had consistent labels); caught after an unlabelled twin of a labelled variant was added to the table menu"),
+ "S-C11-2": ("C11", "get_major_name resolves the placeholder index -1 by list indexing (wraps to the last copy) instead of the explicit test", "exactly one called copy in a gene with a whole-gene-deletion allele", "caught as written"),
+ "S-C15-2": ("C15", "Coverage.quality_filter caches pass/fail per (profile name, quality pair), ignoring the thresholds", "two filterings in one process with the same profile name, different thresholds, and reads whose quality lies between them", "missed at first (every low-quality pair sat just below its own threshold); caught after qualities between the two threshold settings were added in both roles"),
  "S-C01-2": ("C01", "the generated N-padded reference for indel realignment is cached per process keyed by (contig name, length)", "two genotyping calls in one process for different genes on the same contig, the second sample carrying a catalogued indel", "caught as written (worker processes evaluate several generated databases on contig 7)"),
  "S-C03-2": ("C03", "estimate_cn checks the no-copy-number fallback before the user-supplied structure", "a user-supplied list other than 1,1 for a gene without structural alleles or with the exome profile", "missed at first; caught after user lists on genes without copy-number calling (CYP2C19, G6PD, toy in exome mode) were added to C03"),
  "S-C06-2": ("C06", "Sample.__init__ takes the multi-substitution table from a module-level cache keyed by gene name", "two Samples of same-named genes with different MNV sites in one process, the later one with reads showing a complete MNV", "caught as written (file states of both builds share worker processes)"),
